@@ -73,6 +73,31 @@ func deepWrap(d int, bottom string) string {
 // lazy re-parsing keeps 8000 levels within a few seconds).
 var deepDepths = []int{3, 31, 32, 33, 63, 64, 65, 127, 128, 129, 150, 199, 200, 201, 202, 255, 256, 257, 500, 511, 512, 513, 999, 1000, 1001, 1023, 1024, 1025, 2000, 2500, 4095, 4096, 4097, 4999, 5000, 5001, 5002, 8000}
 
+// deepOpsCase: six operations of every kind on members that lie d levels down.
+func deepOpsCase(d int, variant int) *SeqCase {
+	doc := deepWrap(d, `{"keep":1,"drop":2,"chg":3,"o":{"x":1,"y":[1,2]},"z":"s"}`)
+	b := strings.Repeat("/a", d)
+	texts := []string{
+		OpText("test", b+"/keep", "", "1", true),
+		OpText("replace", b+"/chg", "", `{"n":[4]}`, true),
+		OpText("remove", b+"/drop", "", "", false),
+		OpText("add", b+"/new", "", `[1,{"k":null}]`, true),
+		OpText("move", b+"/p", b+"/o", "", false),
+		OpText("copy", b+"/q", b+"/p/y", "", false),
+		OpText("test", b+"/q/1", "", "2", true),
+	}
+	if variant == 1 {
+		// the same, but the whole lower half is first moved to a new member of the root and back
+		h := strings.Repeat("/a", d/2+1)
+		texts = append([]string{OpText("move", "/tmp", h, "", false), OpText("move", h, "/tmp", "", false)}, texts...)
+	}
+	sc := &SeqCase{DocText: doc, Doc: mustParse(doc), OpTexts: texts}
+	for _, t := range texts {
+		sc.Ops = append(sc.Ops, opFromText(t))
+	}
+	return sc
+}
+
 // editObject returns a variant of object a obtained by k random edits at
 // random depths (for CreateMergePatch: small, deep differences).
 func editObject(r *rand.Rand, p *gen.Profile, a *jr.Value, edits int) *jr.Value {
